@@ -6,9 +6,9 @@ CONSTANTS
   ROTS <- ROTS_id
   MaxDepth = 6
   FORGET = {}
-  NOCOPY = {"B"}
+  NOCOPY = {}
   OBJ = "grain"
-  ALIASARG = FALSE
+  ALIASARG = TRUE
   UNWRITTEN = {}
   EmitMode = 0
 INVARIANT Coherent
